@@ -5,6 +5,11 @@ From CM Require Import Gen.Consts Ocsp.Model.
 Import ListNotations.
 Open Scope Z_scope.
 
+(** the code of /repo has the shape the model follows (every flag is read from the source on
+    every run; see Model.v) *)
+Lemma code_shape : ocsp_code_shape = true.
+Proof. reflexivity. Qed.
+
 (** * Arithmetic of [freshOCSP] *)
 
 Lemma quot_bounds k d : 0 < k ->
